@@ -1862,8 +1862,46 @@ def _norm(c):
     return sq(tot)
 
 
-def ob_ghz_coeff(d, n):
+def _norm_c(c):
+    tot = 0
+    for x in c:
+        x = lift(x) if isinstance(x, Sym) else x
+        tot = tot + (x * x.conjugate() if isinstance(x, Sym) else abs(x) ** 2)
+    return sq(tot.real if isinstance(tot, Sym) else tot)
+
+
+def _cplx_witness(m):
+    base = [1, 1j, 3, -4j, 2 + 1j]
+    return [{"c": [complex(v) for v in base[:m]]}, {"c": [complex(v) for v in base[:m][::-1]]}]
+
+
+def ob_ghz_coeff(d, n, field="real"):
     from toqito.states import ghz
+    if field == "complex":
+        def build(b):
+            return {"c": [b.cplx(f"c{k}") for k in range(d)]}
+
+        def call(i):
+            return np.asarray(ghz(d, n, list(i["c"])))
+
+        def oracle(i):
+            nrm = _norm_c(i["c"])
+            outs = []
+            for normalise in (True, False):
+                v = np.zeros((d ** n, 1), dtype=object)
+                for k in range(d):
+                    idx = 0
+                    for _ in range(n):
+                        idx = idx * d + k
+                    v[idx, 0] = i["c"][k] / nrm if normalise else i["c"][k]
+                outs.append(v)
+            return outs
+
+        def valid(ni):
+            return sum(abs(x) ** 2 for x in ni["c"]) > 1e-6
+        return pob("ghz.coefficient_vector_is_normalised_onto_the_diagonal_kets", {"d": d, "parties": n, "coefficients": "complex"}, build, call, oracle,
+                   post=_coeff_post(lambda i: _norm_c(i["c"])), valid=valid, objzeros=("toqito.states.ghz",), neg_control=False,
+                   witness=lambda: _cplx_witness(d), tv=False)
 
     def build(b):
         return {"c": [b.real(f"c{k}") for k in range(d)]}
@@ -1893,11 +1931,12 @@ def ob_ghz_coeff(d, n):
                post=_coeff_post(lambda i: _norm(i["c"])), valid=valid, neg=neg, objzeros=("toqito.states.ghz",))
 
 
-def ob_w_coeff(n):
+def ob_w_coeff(n, field="real"):
     from toqito.states import w_state
 
     def build(b):
-        return {"c": [b.real(f"c{k}") for k in range(n)]}
+        return {"c": [(b.cplx if field == "complex" else b.real)(f"c{k}") for k in range(n)]}
+    _norm = _norm_c if field == "complex" else globals()["_norm"]
 
     def call(i):
         return np.asarray(w_state(n, list(i["c"])))
@@ -1916,18 +1955,20 @@ def ob_w_coeff(n):
         if not isinstance(i["c"][0], Sym):
             # plain numbers: the real function rounds to 4 decimals (documented by its examples)
             nrm = _norm(i["c"])
-            ok1 = np.allclose(np.asarray(res, dtype=float), np.asarray(exp[0], dtype=float), rtol=0, atol=5.1e-5)
-            ok2 = np.allclose(np.asarray(res, dtype=float), np.asarray(exp[1], dtype=float), rtol=0, atol=5.1e-5) and abs(nrm - 1) <= 2e-5
+            ok1 = np.allclose(np.asarray(res, dtype=complex), np.asarray(exp[0], dtype=complex), rtol=0, atol=5.1e-5)
+            ok2 = np.allclose(np.asarray(res, dtype=complex), np.asarray(exp[1], dtype=complex), rtol=0, atol=5.1e-5) and abs(nrm - 1) <= 2e-5
             return bool(ok1 or ok2)
         return _coeff_post(lambda i: _norm(i["c"]))(res, exp, i)
 
     def valid(ni):
-        return sum(x * x for x in ni["c"]) > 1e-6
+        return sum(abs(x) ** 2 for x in ni["c"]) > 1e-6
 
     def neg(exp):
         return [np.roll(np.asarray(e, dtype=object).ravel(), 1).reshape(np.shape(e)) for e in exp]
-    return pob("w_state.coefficient_vector_is_normalised_onto_single_excitation_kets", {"qubits": n}, build, call, oracle,
-               post=post, valid=valid, neg=neg, extra={"toqito.states.w_state": {"csr_array": _ObjCsr}}, tv=False)
+    cfg = {"qubits": n} if field == "real" else {"qubits": n, "coefficients": "complex"}
+    return pob("w_state.coefficient_vector_is_normalised_onto_single_excitation_kets", cfg, build, call, oracle,
+               post=post, valid=valid, neg=neg, extra={"toqito.states.w_state": {"csr_array": _ObjCsr}}, tv=False,
+               witness=(lambda: _cplx_witness(n)) if field == "complex" else None)
 
 
 def ob_coeff_unit_norm(kind, d, n):
@@ -2000,9 +2041,13 @@ def obligations(tier):
     obs.append(ob_chessboard(True))
     for d, n in [(2, 2), (2, 3), (3, 2), (2, 4)] + ([(3, 3), (4, 2), (2, 5)] if T else []):
         obs.append(ob_ghz_coeff(d, n))
+        if (d, n) in [(2, 2), (3, 2), (2, 3)]:
+            obs.append(ob_ghz_coeff(d, n, "complex"))
         obs.append(ob_coeff_unit_norm("ghz", d, n))
     for n in [2, 3, 4] + ([5] if T else []):
         obs.append(ob_w_coeff(n))
+        if n <= 3:
+            obs.append(ob_w_coeff(n, "complex"))
         obs.append(ob_coeff_unit_norm("w_state", n, n))
 
     # ---- (B) states ----
@@ -2048,7 +2093,7 @@ def obligations(tier):
         obs.append(ob_gen_pauli(d, field[d]))
         obs.append(ob_gen_gell_mann(d))
     obs.append(ob_gell_mann())
-    for n in [0, 1, 2, 3, 4] + ([5] if T else []):
+    for n in [0, 1, 2, 3, 4, 5] + ([6, 7] if T else []):      # five qubits: the property's upper end; beyond 4 bits parity tables stop repeating
         obs.append(ob_hadamard(n))
     obs.append(ob_cnot())
     for n in [1, 2, 3, 4, 5] + ([6] if T else []):
